@@ -103,7 +103,7 @@ def case_batch(batch, wctx):
 
 def run(ctx):
     quick = ctx.tier == "quick"
-    n = G.QUICK_N.get(ctx.prop, 400) if quick else 8000
+    n = G.QUICK_N.get(ctx.prop, 400) if quick else 4000
     per = 20 if quick else 250
     ctx.rule = ("1-4 unpositioned str/File/list/MultiInputObj fields (plain, bare, templated, sep, '...') + list "
                 "append_args, values = strings of 1-6 chars over a hostile alphabet (also as real file names); each "
